@@ -102,9 +102,11 @@ CLAIMED = {
                 "day+month and two-digit-year English templates with the reference instant (years 5-9995; 1970-2067 for "
                 "two-digit years), day numbers, HH:MM and YY symbolic, per PREFER_DATES_FROM value: z3 shows per path "
                 "not-after / not-before, nearest occurrence (weekday: 1..7 days; time: same/adjacent day), current_period "
-                "windows and preservation of the named parts. One open known finding (month reset after a weekday/day "
-                "shift that crosses a month boundary) is characterised in known_findings.json; inside its region only the "
-                "correct or the characterised wrong value is accepted.",
+                "windows and preservation of the named parts; the time-only form also under tz-database zones with "
+                "transitions (pytz's own code executed symbolically, oracle = zoneinfo-derived transition table). Two open "
+                "known findings (month reset after a weekday/day shift that crosses a month boundary; time-only date taken "
+                "from the UTC date) are characterised in known_findings.json; inside their regions only the correct or the "
+                "characterised wrong value is accepted.",
         "design_ref": "DESIGN.md §3 C09",
     },
     "C10": {
@@ -134,7 +136,10 @@ CLAIMED = {
                 "phrase, custom-format, absolute incl. a zone written in the string) the public entry is executed with "
                 "the local date-time (1950-2037) symbolic; z3 shows per path that the result is the same instant "
                 "re-expressed in the target zone (pair arithmetic on ordinal/µs-of-day) and that awareness follows the "
-                "statement's table. Zones with DST transitions are outside (stated).",
+                "statement's table. tz-database zones WITH transitions (6 zones; quick: local times of 2021, thorough: "
+                "1971-2037; neither in a gap nor ambiguous, as the property states): pytz's own DstTzInfo code is "
+                "re-imported through the loader and executed symbolically, the oracle is a transition table derived from "
+                "the stdlib zoneinfo.",
         "design_ref": "DESIGN.md §3 C12",
     },
     "C13": {
